@@ -29,6 +29,10 @@ def tail_episode(path, n=60):
 
 def run(res):
     bdir = os.path.join(BUILD, PID)
+    try:
+        regen_consts104()
+    except BuildError as e:
+        res.violation("tie-or-proof-broken", str(e)[:900], {"no_longer_checks": ["translate/consts104.c -> lean/Iec/Gen/Consts104.lean"]}, found_input=False)
     proof_ok, _ = proof_stage(res, PID)
     found, histos, total_ops, broken = False, [], 0, []
     try:
